@@ -37,6 +37,7 @@ type World struct {
 	lints      []*LintInfo
 	reach      map[*ssa.Function]bool
 	timeCache  map[*ssa.Global]time.Time
+	globalFacts map[*types.Var]globalFact
 }
 
 type Trace struct {
